@@ -2,6 +2,6 @@
 # tools/try_seed.sh <seed dir name e.g. C18-a> <check id...> : apply the seeded patch to /repo, run the checks, undo.
 S="$1"; shift
 git -C /repo apply "/verif/seeded/$S/patch.diff" || exit 2
-for c in "$@"; do /verif/check "$c" 2>&1 | grep -E "VIOLATION|KNOWN-FINDING|INTERNAL|-> (ok|FAIL)" | cut -c1-300; done
+for c in "$@"; do timeout 2400 /verif/check "$c" 2>&1 | grep -E "VIOLATION|KNOWN-FINDING|INTERNAL|-> (ok|FAIL)" | cut -c1-300; done
 git -C /repo checkout -- .
 git -C /repo status --short | grep -v '^??' && echo "REPO NOT CLEAN"
